@@ -18,6 +18,16 @@ CLAIMED = {
     note="Bounds: quick <= 6/5/3 octets and <= 8/9/5 chars (b64/b32/b16); thorough up to 9 octets and 12/16 chars. Longer texts are outside the claim (the decoder state is (buf, position mod group, padding flag), all reached within the bound - an argument, not a solver result). Decoder target is a harness-local element-wise builder (octseq::Array in the thorough tier). Non-zero trailing bits are don't-care (RFC 4648 3.5). SymbolConverter twins are not yet covered.",
     technique=KANI + "; differential against independent RFC 4648 reference encoder/decoder written in the harness crate",
     ref="DESIGN.md §4 C18"),
+ "C03": dict(
+    text="One-step induction over the name builder: from every builder state satisfying its representation invariant (any closed length 0..254, any open label 1..63, arbitrary content) each operation (push, append_slice, append_label, end_label, append_name, append_origin, append_dec_u8_label, append_hex_digit_label, finish, into_name) is decided by the solver to keep the invariant / produce a valid name, whether it returns Ok or Err, without panic or overflow. Histories of any length follow by induction.",
+    note="Pre-states are constructed through a cfg-guarded hook (NameBuilder::verif_from_parts). Appended slices/names are <= 5/4 octets (quick) or 6 (thorough); all (length, open-label) boundary pairs are reached through the symbolic pre-state. Validity of the whole name is composed from 'prefix octets untouched' + 'suffix valid' + 'total <= 254' (argument). Known finding D8 (255-octet relative names when a new label starts at len+n == 254, pinned by the repo's own test) is excluded from the main harnesses and asserted by witness harnesses. Builder target is the harness-local FixedBuf; ShortBuf paths, text parsing (from_chars) and slicing are covered by separate harnesses where listed in evidence, otherwise outside.",
+    technique=KANI + "; inductive step from an arbitrary symbolic pre-state satisfying the representation invariant",
+    ref="DESIGN.md §4 C03"),
+ "C04": dict(
+    text="Order/equality/hash laws decided for all triples of labels up to the stated length: cmp equals the RFC 4034 6.1 order (lexicographic over lower-cased octets) of an independent model, is antisymmetric and transitive, agrees with ==, equal labels feed identical octets to the hasher, case-insensitivity is exactly A-Z/a-z, composed orders equal bytewise order of the wire forms.",
+    note="Bounds: labels <= 3 octets (quick), <= 5 (thorough); names, records and RDATA comparisons are added harness by harness (see evidence samples for what this run covered).",
+    technique=KANI + "; algebraic laws + differential against an independent canonical-order model",
+    ref="DESIGN.md §4 C04"),
 }
 
 NA = {
